@@ -24,9 +24,68 @@ type banLookup struct {
 	key ast.Expr
 }
 
+// at: the node a guarded site must be dominated by (the lookup itself).
+func (b banLookup) at() ast.Node {
+	if b.ifs.Init != nil {
+		return b.ifs.Init
+	}
+	return b.ifs.Cond
+}
+
+// banPredicates: functions of package core of the form func(k Enumeration) bool { _, ok := <ban>[k]; return ok }
+// (or `return <ban>[k]`-like single lookups): a by-kind membership test of the ban set under a name.
+func (c *Ctx) banPredicates(ban *types.Var) map[*types.Func]int {
+	out := map[*types.Func]int{}
+	for _, h := range c.libFns() {
+		sig := h.Obj.Type().(*types.Signature)
+		if sig.Params().Len() != 1 || sig.Results().Len() != 1 {
+			continue
+		}
+		if b, ok := sig.Results().At(0).Type().Underlying().(*types.Basic); !ok || b.Kind() != types.Bool {
+			continue
+		}
+		if len(h.Decl.Body.List) != 2 {
+			continue
+		}
+		as, ok := h.Decl.Body.List[0].(*ast.AssignStmt)
+		ret, ok2 := h.Decl.Body.List[1].(*ast.ReturnStmt)
+		if !ok || !ok2 || len(as.Lhs) != 2 || len(as.Rhs) != 1 || len(ret.Results) != 1 {
+			continue
+		}
+		b, k, isIdx := indexOn(h.Pkg, as.Rhs[0])
+		if !isIdx || fieldSel(h.Pkg, b) != ban || paramIndexOf(h, k) != 0 {
+			continue
+		}
+		okId, _ := as.Lhs[1].(*ast.Ident)
+		rid, _ := ast.Unparen(ret.Results[0]).(*ast.Ident)
+		if okId != nil && rid != nil && h.Pkg.TypesInfo.Uses[rid] == h.Pkg.TypesInfo.Defs[okId] {
+			out[h.Obj] = 0
+		}
+	}
+	return out
+}
+
 func (c *Ctx) banLookups(f *Fn, ban *types.Var) []banLookup {
 	pk := f.Pkg
 	var out []banLookup
+	// `if <core>.isBanned(k) { return <error> }` through a membership predicate
+	preds := c.banPredicates(ban)
+	ast.Inspect(f.Decl.Body, func(n ast.Node) bool {
+		ifs, ok := n.(*ast.IfStmt)
+		if !ok || ifs.Init != nil || !returnsNonNilError(pk, ifs.Body.List) {
+			return true
+		}
+		call, ok := ast.Unparen(ifs.Cond).(*ast.CallExpr)
+		if !ok || len(call.Args) != 1 {
+			return true
+		}
+		if cal := callee(pk, call); cal != nil {
+			if _, isPred := preds[cal.Origin()]; isPred {
+				out = append(out, banLookup{ifs, call.Args[0]})
+			}
+		}
+		return true
+	})
 	ast.Inspect(f.Decl.Body, func(n ast.Node) bool {
 		ifs, ok := n.(*ast.IfStmt)
 		if !ok || ifs.Init == nil {
@@ -104,7 +163,7 @@ func (c *Ctx) ruleC19() {
 	guardedUp = func(f *Fn, node ast.Node, depth int) bool {
 		cf := buildCFG(f.Decl.Body)
 		for _, bl := range c.banLookups(f, ban) {
-			if namedType(f.Pkg.TypesInfo.TypeOf(bl.key)) == prog.ModulePath+"/directive.Enumeration" && cf.dominatedBy(node, bl.ifs.Init) && !(bl.ifs.Body.Pos() <= node.Pos() && node.End() <= bl.ifs.Body.End()) {
+			if namedType(f.Pkg.TypesInfo.TypeOf(bl.key)) == prog.ModulePath+"/directive.Enumeration" && cf.dominatedBy(node, bl.at()) && !(bl.ifs.Body.Pos() <= node.Pos() && node.End() <= bl.ifs.Body.End()) {
 				return true
 			}
 		}
@@ -157,7 +216,7 @@ func (c *Ctx) ruleC19() {
 			okLocal := false
 			for _, bl := range c.banLookups(f, ban) {
 				if kindArg != nil && accessPath(pk, bl.key) == accessPath(pk, kindArg) && kindVar[accessPath(pk, kindArg)] &&
-					cf.dominatedBy(site, bl.ifs.Init) && !(bl.ifs.Body.Pos() <= site.Pos() && site.End() <= bl.ifs.Body.End()) {
+					cf.dominatedBy(site, bl.at()) && !(bl.ifs.Body.Pos() <= site.Pos() && site.End() <= bl.ifs.Body.End()) {
 					okLocal = true
 				}
 			}
@@ -206,7 +265,7 @@ func (c *Ctx) ruleC19() {
 						rp := accessPath(h.Pkg, ret.Results[0])
 						guarded := false
 						for _, bl := range c.banLookups(h, ban) {
-							if accessPath(h.Pkg, bl.key) == rp && hKind[rp] && hcf.dominatedBy(ret, bl.ifs.Init) && !(bl.ifs.Body.Pos() <= ret.Pos() && ret.End() <= bl.ifs.Body.End()) {
+							if accessPath(h.Pkg, bl.key) == rp && hKind[rp] && hcf.dominatedBy(ret, bl.at()) && !(bl.ifs.Body.Pos() <= ret.Pos() && ret.End() <= bl.ifs.Body.End()) {
 								guarded = true
 							}
 						}
@@ -278,7 +337,7 @@ func (c *Ctx) ruleC19() {
 				return true
 			}
 			n++
-			if guard == nil || !cf.dominatedBy(call, guard.ifs.Init) || (guard.ifs.Body.Pos() <= call.Pos() && call.End() <= guard.ifs.Body.End()) {
+			if guard == nil || !cf.dominatedBy(call, guard.at()) || (guard.ifs.Body.Pos() <= call.Pos() && call.End() <= guard.ifs.Body.End()) {
 				bad = cal.Name() + " at " + c.pos(call.Pos())
 			}
 			return true
@@ -315,7 +374,7 @@ func (c *Ctx) ruleC19() {
 		ok := false
 		for _, bl := range c.banLookups(f, ban) {
 			if call, isCall := ast.Unparen(bl.key).(*ast.CallExpr); isCall {
-				if cal := callee(pk, call); cal != nil && cal.Name() == "Type" && dispNode != nil && cf.dominatedBy(dispNode, bl.ifs.Init) {
+				if cal := callee(pk, call); cal != nil && cal.Name() == "Type" && dispNode != nil && cf.dominatedBy(dispNode, bl.at()) {
 					ok = true
 				}
 			}
